@@ -196,6 +196,10 @@ theorem C17_clean_only_generated (c : Config) (h : listingWF c.cmd c.dirPrefix c
     obtain ⟨f, hf, hfn, hfr⟩ := hrem n hn
     exact ⟨f, hf, hfn, hfr⟩
 
+/-- per-type runs (`-type=A`, `-sep`) and runs without a matching go:generate line never remove anything -/
+theorem C17_clean_inactive (c : Config) (h : (c.cleanActive && !c.outs.isEmpty) = false) : c.clean = [] := by
+  simp [Config.clean, Config.cleanNames, h]
+
 /-! ### second tie: the op alphabet is complete -/
 
 /-- call sites of file-mutating os functions the model accounts for, with the op each one is -/
